@@ -111,7 +111,7 @@ Definition p_tabt (layers H cols C pad out : nat) (cat_ids num_ids : list nat) (
 
 (* GroupNorm on [B, P, cols, C]: normalises within one sample; over-approximated by "mixes the whole sample" *)
 Definition p_group_norm (Z : list pt3) : list pt3 :=
-  map (fun z => map (map (map (fun _ => PVal (tdeps z)))) z) Z.
+  map (fun z => let d := PVal (tdeps z) in map (map (map (fun _ => d))) z) Z.
 Definition p_trompt_conv (cols C P : nat) : pt3 -> pt3 -> option pt3 :=
   trompt_conv PO cols C P (repeat (pconst C) P) (repeat (pconst C) cols) (pconst P) (dense3 C) p_group_norm.
 Definition p_trompt_decoder (P C out : nat) : pt3 -> option pmat :=
